@@ -15,13 +15,17 @@ func profileFor(prop string) Profile {
 	case "C01":
 		p.PMalformed, p.PInvalidCtx, p.Chain = 0.22, 0.1, 4
 		p.PSingleMal = 0.25
+		p.PLongHash = 0.03
+		p.PLongStrings, p.PLongKeys = 0.08, 0.6 // hash inputs that outgrow the 100-byte buffer in every way its growth distinguishes
 	case "C02":
 		p.PPrereq, p.PTargets, p.PCtxTargets, p.MaxRules = 0.5, 0.5, 0.3, 4
 		p.PMalformed = 0.04 // a malformed clause or index that the deciding stage never reaches must not change the decision
+		p.PPlaceholders = 0.2
 		p.PKindAttr, p.PMulti = 0.15, 0.4 // clauses on the built-in attribute "kind" against multi-kind contexts (pseudo-kind "multi")
 	case "C03":
 		p.PTargets, p.PCtxTargets, p.PMulti, p.MaxRules, p.PPrereq, p.MaxSegs = 0.85, 0.65, 0.5, 1, 0.1, 1
 		p.PLegacy = 0.35 // legacy users: the only way to an empty key
+		p.PPlaceholders = 0.25
 	case "C04":
 		p.MaxRules, p.MaxClauses, p.PSegmentOp, p.PPrereq, p.PTargets, p.PCtxTargets, p.PKindAttr, p.PRollout = 2, 3, 0.03, 0.12, 0.05, 0.05, 0.15, 0.1
 		p.MaxFlags, p.MaxSegs, p.POff = 2, 1, 0.02 // a few prerequisites: a malformed clause reached inside one ends the whole evaluation
@@ -40,6 +44,7 @@ func profileFor(prop string) Profile {
 		p.PSegmentOp, p.MinSegs, p.MaxClauses = 0.45, 2, 1 // weighted segment rules (incl. ones that look into another segment) share the hash
 		p.PNestedSeg = 0.12
 		p.PTopBucket = 0.01
+		p.PLongHash = 0.03
 		p.PZeroAge = 0.12
 		p.PSegBucket = 0.3 // weighted segment rules with a bucket-by attribute; an invalid reference gives MALFORMED_FLAG at every weight
 	case "C07":
@@ -51,8 +56,14 @@ func profileFor(prop string) Profile {
 		p.PRollout, p.PExperiment, p.PDegenerateWeights, p.PMulti, p.PPrereq, p.POff = 0.9, 0.75, 0.45, 0.5, 0.3, 0.08
 	case "C09":
 		p.PPrereq, p.MinFlags, p.MaxFlags, p.MaxPrereq, p.PMalformed, p.PRecorderOpt, p.POff = 0.9, 3, 6, 3, 0.12, 0.9, 0.2
+	case "C13":
+		// what concurrent calls could share: the hash buffer once it has outgrown its 100 preallocated bytes, the chains beyond
+		// their 20 preallocated entries
+		p.PRollout, p.PLongStrings, p.PLongKeys, p.Chain = 0.6, 0.15, 0.6, 30
+		p.PLongHash = 0.12
 	case "C10":
 		p.Chain, p.PPrereq, p.PSegmentOp, p.MinFlags, p.MinSegs = 60, 0.7, 0.6, 3, 3
+		p.PForm0 = 0.45 // cycles all of whose members were never preprocessed must be found as well
 	case "C11":
 		p.PBigSeg, p.PSegmentOp, p.PPrereq, p.MinSegs, p.MaxSegs, p.PMulti, p.MinFlags = 0.7, 0.7, 0.5, 2, 5, 0.5, 2
 	case "C19":
